@@ -9,6 +9,7 @@ import concurrent.futures as cf
 import json, os, random, re, shutil, statistics, tempfile
 import vlib
 
+RERUNS = 6                   # a rejected trace is re-run up to RERUNS times (fresh processes); see _run
 TIMEOUT_MS = 3000           # watchdog per call; checked below against the measured typical call time (>= 50x)
 ALL_BUILDS = '{"ok", "noname", "unset", "minver12"}'
 MC_ACTIONS = ["Entry", "Build", "HsWrite", "HsSecret", "HsTP", "HsCheck", "HsReadHave", "HsReadWait", "HsDone", "HsTail",
@@ -35,6 +36,12 @@ def shm_extra(ctx):
         ctx._shm = getattr(ctx, "_shm", []) + [d]
         return ["-metadir", d]
     return []
+
+
+def uninjected(o):
+    """No Cancel, and Close only as the last two calls (plans that fall behind the end of a schedule collapse onto it)."""
+    ops = o["ops"]
+    return not any(x.startswith("Cancel.") for x in ops) and not any(x.startswith("Close.") for x in ops[:-2])
 
 
 def parse_op(code):
@@ -215,8 +222,8 @@ def _run(ctx, q, seed, pool):
     eager_emitted = len(eager)
     if q and len(eager) > 600:
         # quick tier: all uninjected schedules + a VERIF_SEED-chosen sample of the injected ones
-        keep = [o for o in eager if o["plan"]["kind"] == "none"]
-        rest = [o for o in eager if o["plan"]["kind"] != "none"]
+        keep = [o for o in eager if uninjected(o)]
+        rest = [o for o in eager if not uninjected(o)]
         random.Random(seed).shuffle(rest)
         eager = keep + rest[:600 - len(keep)]
     # Delivery dimension (not a model variable: every variant must behave like whole delivery, HandleData keeps a copy):
@@ -224,14 +231,18 @@ def _run(ctx, q, seed, pool):
     # receive buffer per side that the caller overwrites right after every call. Every schedule gets a VERIF_SEED-chosen
     # variant; the uninjected eager schedules get the full {1, 7, 64, 256, whole} x {fresh, reused} matrix.
     rng = random.Random(seed * 7919 + 23)
-    weighted = [0] * 8 + [256] * 4 + [64] * 4 + [7] * 3 + ([1] if not q else [])
+    weighted = [0] * 16 + [256] * 8 + [64] * 8 + [7] * 6 + ([1] if not q else [])   # byte-by-byte is long: rare outside the matrix
     scs = []
     for fam, lst in (("stuck", stuck), ("eager", eager), ("sim", sim)):
         for o in lst:
             cfg = dict(o["cfg"], chunk=rng.choice(weighted), reuse=rng.random() < 0.5)
             scs.append({"id": len(scs) + 1, "family": fam, "cfg": cfg, "plan": o.get("plan"), "ops": [parse_op(c) for c in o["ops"]]})
-    plain = [o for o in eager if o["plan"]["kind"] == "none" and o["cfg"]["build"] == "ok" and not o["cfg"]["srvRefuse"] and not o["cfg"]["cliRefuse"]]
-    cutsim = [o for o in sim if o["plan"]["kind"] == "none" and any(parse_op(c)["k"] for c in o["ops"])][:(2 if q else 10)]
+    plain = [o for o in eager if uninjected(o) and o["cfg"]["build"] == "ok" and not o["cfg"]["srvRefuse"] and not o["cfg"]["cliRefuse"]]
+    cutsim = [o for o in sim if uninjected(o) and any(parse_op(c)["k"] for c in o["ops"])][:(2 if q else 10)]
+    if not plain:
+        raise vlib.Machinery("vacuity: TLC emitted no uninjected eager schedule for the delivery matrix")
+    if q:       # one schedule per server behaviour (with / without HelloRetryRequest)
+        plain = [next(o for o in plain if o["cfg"]["hrr"] == h) for h in (False, True) if any(o["cfg"]["hrr"] == h for o in plain)]
     for o in plain + cutsim:
         for chunk in (1, 7, 64, 256, 0):
             for reuse in (False, True):
@@ -262,38 +273,54 @@ def _run(ctx, q, seed, pool):
     ctx.traces += len(rows)
     repro_info = {}
     if rejected:
-        # reproduce: the rejected scenarios again, alone, in a fresh process; validate again (verbose: where does it stop)
-        runs2, _ = run_pump(ctx, rejected, "c23-repro", race=False)
-        rows2 = [trace_row(s, runs2.get(s["id"], [])) for s in rejected]
-        acc2, at2 = validate(ctx, rows2, shards=2, verbose=True, tagname="r")
+        # Every rejection is an observation of the real code leaving the specification; the re-runs (alone, fresh processes,
+        # no race detector) only guard against a flaky harness. A rejection may depend on goroutine timing, so a trace counts
+        # as reproduced as soon as ANY of up to RERUNS re-runs is rejected again in the same class (same call and same kind
+        # of result at the first unexplained event: a hang must hang again); only "never again" is exit 2.
         _, at1 = validate(ctx, [trace_row(s, runs[s["id"]]) for s in rejected], shards=2, verbose=True, tagname="v")
-        acc_asis, _ = validate(ctx, rows2, cfg="UQuic_Trace_asis", shards=1, tagname="a")
-        ctx.traces += 3 * len(rows2)
-        unrepro = []
-        for s in rejected:
-            if s["id"] in acc2:
-                unrepro.append(s["id"])
-                continue
-            sig1, i1 = sig_of(s, runs[s["id"]], at1)
-            sig2, i2 = sig_of(s, runs2.get(s["id"], []), at2)
-            if sig1 != sig2:
-                unrepro.append(s["id"])
-                continue
-            e = runs2[s["id"]][i2 - 1] if 1 <= i2 <= len(runs2[s["id"]]) else {}
-            as_coded = s["id"] in acc_asis
-            if e.get("ret") == "hung":
-                what = ("%s(%s) never returned (watchdog %d ms, twice) with client input %r; error of BuildHandshakeState on the same input: %r. "
-                        "The repaired mechanism (FixEarlyReturn = TRUE) has no such behaviour%s"
-                        % (e["op"], e["side"], TIMEOUT_MS, s["cfg"]["build"], runs2[s["id"]][i2 - 1].get("builderr", ""),
-                           "; the as-coded mechanism (early return in UConn.handshakeContext before the QUIC channels are closed) explains the run exactly" if as_coded else ""))
-            else:
-                what = "recorded run is not a behaviour of UQuic: first unexplained event #%d %s" % (i2, json.dumps({k: e.get(k) for k in ("op", "side", "ret", "kind", "level", "mt", "sid", "junk", "u", "rem", "complete")}))
-            repro_info[s["id"]] = sig2
-            ctx.finding(sig2, what, {"cfg": s["cfg"], "ops": s["ops"], "family": s["family"], "first_unexplained_event": i2,
-                                     "accepted_by_as_coded_model": as_coded,
-                                     "trace": [{k: v for k, v in ev.items() if k in ("i", "op", "side", "ret", "kind", "level", "mt", "err", "builderr")} for ev in runs2[s["id"]]][:60]})
-        if unrepro:
-            raise vlib.Machinery("%d rejected traces did not reproduce (ids %s)" % (len(unrepro), unrepro[:10]))
+        ctx.traces += len(rejected)
+
+        def klass(sig):
+            p = sig.split(":")
+            return (p[0], p[2] if len(p) > 2 else "")
+        first = {s["id"]: sig_of(s, runs[s["id"]], at1)[0] for s in rejected}
+        pending = list(rejected)
+        for rnd in range(RERUNS):
+            if not pending:
+                break
+            runs2, _ = run_pump(ctx, pending, "c23-repro%d" % rnd, race=False)
+            rows2 = [trace_row(s, runs2.get(s["id"], [])) for s in pending]
+            acc2, at2 = validate(ctx, rows2, shards=2, verbose=True, tagname="r%d_" % rnd)
+            acc_asis, _ = validate(ctx, rows2, cfg="UQuic_Trace_asis", shards=1, tagname="a%d_" % rnd)
+            ctx.traces += 2 * len(rows2)
+            still = []
+            for s in pending:
+                sig2, i2 = sig_of(s, runs2.get(s["id"], []), at2)
+                if s["id"] in acc2 or klass(sig2) != klass(first[s["id"]]):
+                    still.append(s)
+                    continue
+                e = runs2[s["id"]][i2 - 1] if 1 <= i2 <= len(runs2[s["id"]]) else {}
+                as_coded = s["id"] in acc_asis
+                if e.get("ret") == "hung":
+                    what = ("%s(%s) never returned (watchdog %d ms, first run and re-run %d) with client input %r; error of BuildHandshakeState on the same input: %r. "
+                            "The repaired mechanism (FixEarlyReturn = TRUE) has no such behaviour%s"
+                            % (e["op"], e["side"], TIMEOUT_MS, rnd + 1, s["cfg"]["build"], runs2[s["id"]][i2 - 1].get("builderr", ""),
+                               "; the as-coded mechanism (early return in UConn.handshakeContext before the QUIC channels are closed) explains the run exactly" if as_coded else ""))
+                else:
+                    what = "recorded run is not a behaviour of UQuic (first run and re-run %d; delivery: chunk=%s, %s): first unexplained event #%d %s" % (
+                        rnd + 1, s["cfg"].get("chunk") or "whole", "one reused, overwritten receive buffer" if s["cfg"].get("reuse") else "fresh slices", i2,
+                        json.dumps({k: e.get(k) for k in ("op", "side", "ret", "err", "kind", "level", "mt", "sid", "junk", "u", "rem", "complete")}))
+                repro_info[s["id"]] = sig2
+                ctx.finding(sig2, what, {"cfg": s["cfg"], "ops": s["ops"], "family": s["family"], "first_unexplained_event": i2,
+                                         "accepted_by_as_coded_model": as_coded,
+                                         "trace": [{k: v for k, v in ev.items() if k in ("i", "op", "side", "ret", "kind", "level", "mt", "err", "builderr")} for ev in runs2[s["id"]]][-60:]})
+            pending = still
+        if pending and ctx.findings:
+            ctx.note("%d further rejected traces (first-run signatures %s) were not rejected again in %d re-runs; the run already has reproduced rejections"
+                     % (len(pending), sorted({first[s["id"]] for s in pending})[:6], RERUNS))
+        elif pending:
+            raise vlib.Machinery("%d rejected traces were never rejected again in %d re-runs (ids %s, first-run signatures %s)"
+                                 % (len(pending), RERUNS, [s["id"] for s in pending][:10], sorted({first[s["id"]] for s in pending})[:6]))
 
     # ------------------------------------------------------------------ 5. the as-coded counterexample on the real code
     # every STUCK scenario of the as-coded model was replayed above; say which mechanism the code follows
@@ -364,6 +391,9 @@ def _run(ctx, q, seed, pool):
         raise vlib.Machinery("the as-coded model no longer produces the parked-caller counterexample (%s / %s)" % (asis.violated, live_asis))
     if not stuck:
         raise vlib.Machinery("the as-coded model emitted no STUCK scenario")
+    if cov.coverage.get("CallNext", 0) == 0:      # CallNext is CallNextL with 2-byte messages: TLC reports "<CallNextL line .. (call site)>: d:g"
+        m = re.search(r"(?m)^<CallNextL line [^>]*>: (\d+):(\d+)", cov.out)
+        cov.coverage["CallNext"] = int(m.group(2)) if m else 0
     never = [a for a in MC_ACTIONS if cov.coverage.get(a, 0) == 0]
     if never:
         raise vlib.Machinery("vacuity: actions never taken in the exhaustive run: %s" % never)
